@@ -176,3 +176,60 @@ theorem runL_out : ∀ (u : PStr) (ks : List Node) (l : Int) (rest : List Ev), d
 end
 
 end BS.Pretty
+
+namespace BS.Pretty
+
+/-! ### the loop state after a balanced block -/
+
+/-- `(indent_level, string_literal_tag)` after the loop has consumed the events -/
+def finalState (unit : PStr) : St → List Ev → St
+  | st, [] => st
+  | st, ev :: rest => finalState unit (step unit st ev).2 rest
+
+mutual
+theorem final_lit : ∀ (u : PStr) (t : Node) (l : Int) (L : Nat) (rest : List Ev), ¬ L ∈ ids t →
+    finalState u ⟨some l, some L⟩ (events t ++ rest) = finalState u ⟨some l, some L⟩ rest
+  | u, .str s, l, L, rest, _ => by simp [events, finalState, step_text_lit]
+  | u, .void t, l, L, rest, _ => by simp [events, finalState, step_empty_lit]
+  | u, .elem i o c pre ks, l, L, rest, h => by
+    have hi : L ≠ i := by intro e; apply h; simp [ids, e]
+    have hk : ¬ L ∈ idsL ks := by intro e; apply h; simp [ids, e]
+    simp only [events, List.cons_append, List.append_assoc, finalState, step_start_lit]
+    rw [finalL_lit u ks (l + 1) L _ hk]
+    simp [finalState, step_stop_lit u l L i c hi]
+theorem finalL_lit : ∀ (u : PStr) (ks : List Node) (l : Int) (L : Nat) (rest : List Ev), ¬ L ∈ idsL ks →
+    finalState u ⟨some l, some L⟩ (eventsL ks ++ rest) = finalState u ⟨some l, some L⟩ rest
+  | u, [], l, L, rest, _ => by simp [eventsL]
+  | u, k :: ks, l, L, rest, h => by
+    have h1 : ¬ L ∈ ids k := by intro e; apply h; simp [idsL, e]
+    have h2 : ¬ L ∈ idsL ks := by intro e; apply h; simp [idsL, e]
+    simp only [eventsL, List.append_assoc]
+    rw [final_lit u k l L _ h1, finalL_lit u ks l L _ h2]
+end
+
+mutual
+theorem final_out : ∀ (u : PStr) (t : Node) (l : Int) (rest : List Ev), distinct t = true →
+    finalState u ⟨some l, none⟩ (events t ++ rest) = finalState u ⟨some l, none⟩ rest
+  | u, .str s, l, rest, _ => by simp [events, finalState, step_text_out]
+  | u, .void t, l, rest, _ => by simp [events, finalState, step_empty_out]
+  | u, .elem i o c pre ks, l, rest, h => by
+    simp only [distinct, Bool.and_eq_true, Bool.not_eq_true', List.contains_eq_mem, decide_eq_false_iff_not] at h
+    cases pre with
+    | false =>
+      simp only [events, List.cons_append, List.append_assoc, finalState, step_start_out]
+      rw [finalL_out u ks (l + 1) _ h.2]
+      simp [finalState, step_stop_out]
+    | true =>
+      simp only [events, List.cons_append, List.append_assoc, finalState, step_start_enter]
+      rw [finalL_lit u ks (l + 1) i _ h.1]
+      simp [finalState, step_stop_leave]
+theorem finalL_out : ∀ (u : PStr) (ks : List Node) (l : Int) (rest : List Ev), distinctL ks = true →
+    finalState u ⟨some l, none⟩ (eventsL ks ++ rest) = finalState u ⟨some l, none⟩ rest
+  | u, [], l, rest, _ => by simp [eventsL]
+  | u, k :: ks, l, rest, h => by
+    simp only [distinctL, Bool.and_eq_true] at h
+    simp only [eventsL, List.append_assoc]
+    rw [final_out u k l _ h.1, finalL_out u ks l _ h.2]
+end
+
+end BS.Pretty
